@@ -13,6 +13,8 @@ mod sup;
 mod c_pipe;
 mod c_gen;
 mod c_parse;
+mod c_scope;
+mod c_round;
 
 fn main() {
     colored::control::set_override(false);
@@ -28,6 +30,9 @@ fn main() {
         "replay-lex" => c_lex::replay(rest),
         "record-lex" => c_lex::record(rest),
         "record-relayout" => c_lex::record_relayout(rest),
+        "record-scope" => c_scope::record(rest),
+        "roundtrip" => c_round::main(rest),
+        "replay-scope" => c_scope::replay(rest),
         "replay-parse" => c_parse::replay(rest),
         "gen-programs" => c_gen::main(rest),
         "record-pipeline" => c_pipe::record(rest),
@@ -35,6 +40,7 @@ fn main() {
         "worker" => match rest[0].as_str() {
             "pipeline" => c_pipe::worker(&rest[1..]),
             "record" => c_pipe::record_worker(&rest[1..]),
+            "roundtrip" => c_round::worker(),
             k => {
                 eprintln!("unknown worker kind {k}");
                 std::process::exit(2);
